@@ -298,6 +298,30 @@ func parseModelResult(s Sexp) mResult {
 	return res
 }
 
+// metricDataExact is the result as the engine printed it (value strings untouched), series sorted by
+// label set: what two repetitions of one query must agree on to the last digit (C18).
+func metricDataExact(data lokiapi.QueryResponseData) string {
+	var rows []string
+	switch data.Type {
+	case "vector":
+		for _, s := range data.VectorResult.Result {
+			rows = append(rows, fmt.Sprintf("%s %v=%s", labelsSexp(s.Metric.Value).String(), s.Value.T, s.Value.V))
+		}
+	case "matrix":
+		for _, s := range data.MatrixResult.Result {
+			row := labelsSexp(s.Metric.Value).String()
+			for _, p := range s.Values {
+				row += fmt.Sprintf(" %v=%s", p.T, p.V)
+			}
+			rows = append(rows, row)
+		}
+	case "scalar":
+		rows = append(rows, fmt.Sprintf("%v=%s", data.ScalarResult.Result.T, data.ScalarResult.Result.V))
+	}
+	sort.Strings(rows)
+	return string(data.Type) + "\n" + strings.Join(rows, "\n")
+}
+
 func floatClose(a, b float64) bool {
 	if math.IsNaN(a) || math.IsNaN(b) {
 		return math.IsNaN(a) && math.IsNaN(b)
